@@ -25,7 +25,7 @@ RULE = ('random interleavings of reads (read_nonblocking, expect with timeout 0 
 ASSUMPTIONS = ['read-side truth = values returned by the instance\'s read_nonblocking (observed by a wrapper); send-side truth '
                '= the arguments, coerced to the API string type as documented',
                'interact() part uses the outer-pty driver of C15']
-REQUIRED = ['cases', 'log_writes_seen', 'flush_checks', 'read_events', 'send_events', 'transport_pty', 'transport_fd',
+REQUIRED = ['cases', 'per_read_log_checks', 'log_writes_seen', 'flush_checks', 'read_events', 'send_events', 'transport_pty', 'transport_fd',
             'transport_socket', 'transport_popen', 'unicode_cases', 'bytes_cases', 'interact_cases']
 
 TEXT = ['a', 'Z', ' ', '\n', '\r', '\xe9', '€', '日', '😀', '\x00', 'q']
@@ -59,7 +59,7 @@ def gen_case(rng, tr):
             data = txt.encode('utf-8')
             n = len(data)
             cuts = sorted(rng.sample(range(1, n), min(n - 1, rng.randint(0, 2)))) if n > 1 else []
-            ops.append(['peer', data.hex(), cuts, rng.choice(['read_nonblocking', 'expect0', 'expect_short', 'sentinel'])])
+            ops.append(['peer', data.hex(), cuts, rng.choice(['read_nonblocking', 'expect0', 'expect_short', 'sentinel', 'read_small', 'read_small'])])
         elif r < 0.9:
             kind = rng.choice(['send', 'sendline', 'write', 'writelines'])
             pay = ''.join(rng.choice(TEXT) for _ in range(rng.randint(0, 10)))
@@ -132,6 +132,9 @@ def one(case, acc):
                     try:
                         if how == 'read_nonblocking':
                             c.read_nonblocking(4096, 2)
+                        elif how == 'read_small':
+                            # less than what is waiting: the rest is delivered (and must be logged) later
+                            c.read_nonblocking(1 + (len(data) % 3), 2)
                         elif how == 'expect0':
                             c.expect_exact([api('\x01NEVER')], timeout=0)
                         elif how == 'expect_short':
@@ -212,6 +215,19 @@ def judge(case, acc, journal, events, objs, st):
             return v('log-write-without-flush', '%s returned with an unflushed write to %s' % (
                 ev[0], [k for k, x in pending.items() if x]))
     empty = st()
+    # per event: what is written to the read log while a read runs is exactly what that read delivers
+    # (text that is only buffered inside the object has not been delivered yet)
+    if not case.get('shared'):
+        for ev in events:
+            if ev[0] != 'read':
+                continue
+            for nm in ('logfile_read', 'logfile'):
+                if nm in objs:
+                    logged = empty.join(x[2] for x in journal[ev[2]:ev[3]] if x[0] == 'w' and x[1] == nm)
+                    acc.count('per_read_log_checks')
+                    if logged != ev[1]:
+                        return v('log-not-what-the-read-delivered', 'a read returned %r while %s received %r' % (
+                            ev[1], nm, logged))
     reads = empty.join(e[1] for e in events if e[0] == 'read')
     sends = empty.join(e[1] for e in events if e[0] == 'send')
     both = empty.join(e[1] for e in events)
